@@ -9,7 +9,9 @@ the case's launch environment, and
   full  = WorkflowGraph.environmentForNode('stage0.c')
   unexp = WorkflowGraph.environmentWithName(name, expand=False)
   held  = the environment names (with their variable names) FlowIRConcrete holds per platform after FlowIR.from_dict
-are returned (exceptions as their class name)."""
+are returned (exceptions as their class name).
+A case {'subst': {'m': [[k, v]...], 's': text}} instead returns flowir.expand_vars(text, m) (string.Template.safe_substitute)
+and os.path.expandvars(text) under os.environ = m."""
 import json
 import logging
 import os
@@ -27,6 +29,18 @@ def main():
     keep = dict(os.environ)
     out = []
     for c in cases:
+        if 'subst' in c:     # the two substitution functions alone
+            os.environ.clear()
+            os.environ.update({k: v for k, v in c['subst']['m']})
+            try:
+                out.append({'tm': F.expand_vars(c['subst']['s'], {k: v for k, v in c['subst']['m']}),
+                            'os': os.path.expandvars(c['subst']['s'])})
+            except Exception as e:  # noqa
+                out.append({'tm': 'EXC ' + type(e).__name__, 'os': 'EXC'})
+            finally:
+                os.environ.clear()
+                os.environ.update(keep)
+            continue
         envs = {plat: {n: {k: v for k, v in kv} for n, kv in tab} for plat, tab in c['envs'].items()}
         cmd = {'executable': 'echo'}
         if c['name'] is not None:
